@@ -2,6 +2,7 @@
 Require Import Pearl.Base.Prelude Pearl.Storage.Model Pearl.Storage.Spec Pearl.Storage.Inv Pearl.Storage.InvProofs
                Pearl.Blob.Bytes Pearl.Storage.NoHarmProofs Pearl.Io.Trace Pearl.Io.TraceProofs.
 
+Require Pearl.Generated.Facts.
 (* After ANY history (data operations, lifecycle, background requests, restarts with and without close,
    index removal), every blob that existed at any earlier point still exists with the same id and its
    record list has the earlier one as a prefix ... *)
@@ -46,6 +47,16 @@ Theorem C07_trace_no_recreate :
     judge_from ev_harmless [] (tr1 ++ EvCreate (FBlob, i) :: tr2) = true -> fget (run_evs [] tr1) (FBlob, i) = None.
 Proof. exact harmless_no_recreate. Qed.
 
+(* ---- structural facts re-extracted from the Rust source on every run (tools/extract_src.py, Generated/Facts.v):
+   the orderings inside the code that the models used above assume. A change of the code that invalidates one turns
+   the generated boolean into `false` and this file no longer compiles. ---- *)
+(* no append can start below the end of the file: the offset is reserved first, and falls back to the physical length after a failure *)
+Theorem C07_source_append_reserves_then_writes : Pearl.Generated.Facts.APPEND_RESERVES_THEN_WRITES = true.
+Proof. reflexivity. Qed.
+(* a blob id ever used by a file of the directory is never handed out again *)
+Theorem C07_source_quarantined_ids_count : Pearl.Generated.Facts.QUARANTINED_IDS_COUNT_FOR_NEXT_ID = true.
+Proof. reflexivity. Qed.
+
 Print Assumptions C07_trace_append_at_eof.
 Print Assumptions C07_trace_no_positional_write.
 Print Assumptions C07_trace_no_recreate.
@@ -53,3 +64,5 @@ Print Assumptions C07_append_only.
 Print Assumptions C07_file_bytes_prefix.
 Print Assumptions C07_queries_pure.
 Print Assumptions C07_new_blob_id_fresh.
+Print Assumptions C07_source_append_reserves_then_writes.
+Print Assumptions C07_source_quarantined_ids_count.
